@@ -87,6 +87,9 @@ func readerScan(l *Loaded, fn *ssa.Function, fReaders *types.Var) (rng *ssa.Rang
 
 func checkC04(c *Ctx) {
 	l := c.L
+	c.rule("PASS-root-record", "existence and identity of a version come from its stored root record, not from the node cache or the working tree", 2)
+	checkRootRecord(c, "PASS-root-record")
+	checkPooledBytes(c, "FRESH-pooled-bytes")
 	checkVersionProbeRemoved(c, "PASS-version-probe-removed")
 	c.rule("DOM-prune-guards", "latest-version and open-reader guards dominate every deletion", 6)
 	c.rule("OWN-pruner-entry", "background pruner deletes only through deleteVersionsTo", 1)
@@ -444,6 +447,42 @@ func checkOrphanWalk(c *Ctx, rule string) {
 	if nNew < 2 {
 		c.anchorMissing(rule, "fewer than 2 advances of the newer tree's iterator")
 	}
+	// the walk runs to the end of the OLDER tree: a success return is reached only from the exhausted edge of the
+	// older iterator's Valid() (a shortcut that answers "no orphans" from the root keys alone is wrong whenever an
+	// older, stored subtree has become the new root: removals leave exactly that)
+	var exits []guard
+	for _, b := range tow.Blocks {
+		iff := ifOf(b)
+		if iff == nil {
+			continue
+		}
+		call, ok := stripTrivial(iff.Cond).(*ssa.Call)
+		if !ok {
+			continue
+		}
+		f := staticCallee(&call.Call)
+		if f == nil || f.Name() != "Valid" || len(call.Call.Args) == 0 || !isOlder(call.Call.Args[0]) {
+			continue
+		}
+		exits = append(exits, guard{iff, 1})
+	}
+	okDone := len(exits) > 0
+	var badRet ssa.Instruction
+	for _, r := range returnsOf(tow) {
+		if errNilness(retVal(r, 0), r.Block(), 0) > 0 {
+			continue
+		}
+		if !guardsEffect(exits, r) {
+			okDone = false
+			badRet = r
+		}
+	}
+	pos := l.pos(tow.Pos())
+	if badRet != nil {
+		pos = l.ipos(badRet)
+	}
+	c.decide(rule, "orphan walk: success only after the older tree was walked to its end", pos, okDone, "every possibly-successful return is behind the exhausted edge of the older iterator",
+		"the orphan walk can return success without having walked the older tree (a shortcut decided from root keys or versions): when removals make an older stored subtree the new root, the old root and the removed nodes are never reported and stay in storage")
 }
 
 // checkVersionProbeRemoved (shared by C04 and C14): the storage key whose
@@ -505,4 +544,93 @@ func checkVersionProbeRemoved(c *Ctx, rule string) {
 	c.decide(rule, "deleteVersion removes the key hasVersion probes", pos, badRet == nil,
 		"every success return passes a deletion of "+probe,
 		"deleteVersion can return success without deleting "+probe+" itself (when the version has its own root record and the next version is not a reference to it, the removal is left to the orphan walk, which skips every node the next version shares): a single-leaf root that later trees reuse as a child keeps its (version,1) key, and after a restart the first-version search, which probes exactly that key, reports the deleted versions as available again")
+}
+
+// checkPooledBytes (shared by C04, C05, C10): the bytes of a pooled scratch
+// buffer are only copied out of it.  A backend may keep the slice it is given
+// (MemDB does, and so does every batch until it is written): a value that
+// aliases a buffer which goes back to the pool is overwritten by the pool's
+// next user — a re-keyed root written that way turns into garbage under the
+// versions that still reference it.
+func checkPooledBytes(c *Ctx, rule string) {
+	l := c.L
+	c.rule(rule, "bytes of a pooled buffer are copied before they are handed on", 1)
+	n := 0
+	fromPool := func(v ssa.Value) bool {
+		v = stripTrivial(v)
+		ta, ok := v.(*ssa.TypeAssert)
+		if !ok {
+			return false
+		}
+		call, ok := stripTrivial(ta.X).(*ssa.Call)
+		if !ok {
+			return false
+		}
+		f := staticCallee(&call.Call)
+		return f != nil && f.String() == "(*sync.Pool).Get"
+	}
+	for _, fn := range l.SrcFuncs {
+		if !l.inModule(fn) {
+			continue
+		}
+		allInstrs(fn, func(in ssa.Instruction) {
+			call, ok := in.(*ssa.Call)
+			if !ok {
+				return
+			}
+			f := staticCallee(&call.Call)
+			if f == nil || f.String() != "(*bytes.Buffer).Bytes" || len(call.Call.Args) == 0 || !fromPool(call.Call.Args[0]) {
+				return
+			}
+			n++
+			var bad ssa.Instruction
+			for _, r := range refs(call) {
+				ri, isIn := r.(ssa.Instruction)
+				if !isIn {
+					continue
+				}
+				if rc, isCall := r.(*ssa.Call); isCall {
+					if bi, isB := rc.Call.Value.(*ssa.Builtin); isB {
+						switch bi.Name() {
+						case "len", "cap":
+							continue
+						case "copy":
+							if len(rc.Call.Args) == 2 && rc.Call.Args[1] == ssa.Value(call) {
+								continue
+							}
+						case "append":
+							if len(rc.Call.Args) == 2 && rc.Call.Args[1] == ssa.Value(call) && rc.Call.Args[0] != ssa.Value(call) {
+								continue
+							}
+						}
+					}
+				}
+				if _, isDbg := r.(*ssa.DebugRef); isDbg {
+					continue
+				}
+				// io.Writer contract: Write must not retain its argument (hashers)
+				if cc := callCommon(ri); cc != nil {
+					name := ""
+					if cc.IsInvoke() {
+						name = cc.Method.Name()
+					} else if g := staticCallee(cc); g != nil {
+						name = g.Name()
+					}
+					if name == "Write" {
+						continue
+					}
+				}
+				bad = ri
+			}
+			key := l.fname(fn) + " uses the bytes of a pooled buffer"
+			if bad == nil {
+				c.ok(rule, key, l.ipos(call), "only copied out (copy / append source, len)")
+			} else {
+				c.bad(rule, key, l.ipos(bad), "the bytes of a pooled buffer are handed on without a copy: the batch (and MemDB) keep the slice they are given, and the buffer goes back to the pool, so the stored value is overwritten by the pool's next user")
+			}
+		})
+	}
+	if n == 0 {
+		c.anchorMissing(rule, "no use of a pooled buffer's bytes found (the importer has one)")
+	}
 }
